@@ -18,9 +18,12 @@ import scenario as S
 from translate import pyfuns
 
 TIES = {
-    "C04": {"props": "PysamlModel.Props.PyTieC04", "audit": "PysamlModel/Audit/PyTieC04.lean", "functions": ["for_me", "_verify"]},
-    "C05": {"props": "PysamlModel.Props.PyTieC05", "audit": "PysamlModel/Audit/PyTieC05.lean",
-            "functions": ["validate_on_or_after", "validate_before", "authn_statement_ok"]},
+    "C04": {"props": ["PysamlModel.Props.PyTieC04", "PysamlModel.Props.PyTieCond"],
+            "audit": ["PysamlModel/Audit/PyTieC04.lean", "PysamlModel/Audit/PyTieCond.lean"],
+            "functions": ["for_me", "_verify", "condition_ok"]},
+    "C05": {"props": ["PysamlModel.Props.PyTieC05", "PysamlModel.Props.PyTieCond"],
+            "audit": ["PysamlModel/Audit/PyTieC05.lean", "PysamlModel/Audit/PyTieCond.lean"],
+            "functions": ["validate_on_or_after", "validate_before", "authn_statement_ok", "condition_ok"]},
 }
 DRIVER = "Drivers/PyFuns.lean"
 
@@ -57,6 +60,20 @@ def cases(pid, rng, tier):
             for _ in range(n // 4):
                 out.append({"fn": fn, "t": "x", "tm": S.NOW0 + rng.randint(-400, 400), "now": S.NOW0 + rng.randint(-5, 5),
                             "skew": rng.choice([0, 1, 59, 60, 61, 180, 300])})
+    if "condition_ok" in TIES[pid]["functions"]:
+        XS = ["urn:mace:shibboleth:metadata:1.0", "urn:oasis:names:tc:SAML:metadata:ui"]
+        ts_offs = [None, "", -86400, -3600, -61, -60, -59, -1, 0, 1, 59, 60, 61, 3600, 86400]
+        aud_sets = [[], [[S.SP_ID]], [["https://other.example/sp"]], [[S.SP_ID], ["https://other.example/sp"]],
+                    [[" " + S.SP_ID + " ", None]], [[None]], [[S.SP_ID, "x"], [S.SP_ID]]]
+        extras = [[], [XS[0]], [None], ["urn:unknown"], [XS[0], XS[1]], [XS[0], "urn:unknown"], [XS[1], None]]
+        out.append({"fn": "condition_ok", "has_conditions": False, "now": S.NOW0, "skew": 0, "me": S.SP_ID, "schemas": [], "nooa0": 5})
+        for skew in (0, 60):
+            for a in ts_offs:
+                for b in ts_offs:
+                    out.append(_cond_case(a, b, aud_sets[1], [], skew, [], 0))
+        for _ in range(n):
+            out.append(_cond_case(rng.choice(ts_offs), rng.choice(ts_offs), rng.choice(aud_sets), rng.choice(extras),
+                                  rng.choice([0, 60, 180]), rng.choice([[], [XS[0]], XS]), rng.choice([0, 77])))
     if "_verify" in TIES[pid]["functions"]:
         own = "https://sp.example/acs/post"
         dests = [None, "", own, own + "/", "https://evil.example/acs", own.upper(), " " + own]
@@ -84,6 +101,20 @@ def cases(pid, rng, tier):
     return out
 
 
+def _cond_case(nb_off, nooa_off, auds, extra, skew, schemas, nooa0):
+    tab = []
+
+    def lex(o):
+        if o is None or o == "":
+            return o
+        t = S.NOW0 + o
+        tab.append([S.fmt_time(t), t])
+        return S.fmt_time(t)
+
+    return {"fn": "condition_ok", "nb": lex(nb_off), "nooa": lex(nooa_off), "tmtab": tab, "auds": auds, "extra": extra,
+            "now": S.NOW0, "skew": skew, "me": S.SP_ID, "schemas": schemas, "nooa0": nooa0}
+
+
 def _authn_case(offs, skew, sess):
     stmts, tab = [], []
     for o in offs:
@@ -108,6 +139,33 @@ def run_real(case):
             conds = saml.Conditions(audience_restriction=[
                 saml.AudienceRestriction(audience=[saml.Audience(text=t) for t in r]) for r in case["rs"]])
             v = for_me(conds, case["me"])
+        elif fn == "condition_ok":
+            from saml2 import saml
+            from saml2.response import AuthnResponse
+            from saml2.saml import XSI_TYPE
+
+            ar = AuthnResponse.__new__(AuthnResponse)   # the method reads/writes these attributes of self, nothing else
+            conds = None
+            if case.get("has_conditions", True):
+                extra = []
+                for t in case["extra"]:
+                    c = saml.Condition()
+                    if t is not None:
+                        c.extension_attributes = {XSI_TYPE: t}
+                    extra.append(c)
+                conds = saml.Conditions(not_before=case["nb"], not_on_or_after=case["nooa"], condition=extra,
+                                        audience_restriction=[saml.AudienceRestriction(audience=[saml.Audience(text=t) for t in r])
+                                                              for r in case["auds"]])
+            ar.assertion = saml.Assertion(conditions=conds)
+            ar.test = False
+            ar.timeslack = case["skew"]
+            ar.entity_id = case["me"]
+            ar.extension_schema = {k: None for k in case["schemas"]}
+            ar.not_on_or_after = case["nooa0"]
+            with S.clock(case["now"]):
+                v = ar.condition_ok()
+            if v is True:
+                return {"r": "value", "v": True, "nooa": ar.not_on_or_after}
         elif fn == "_verify":
             from saml2 import samlp
             from saml2.response import StatusError, StatusResponse
